@@ -3,7 +3,9 @@
 Every function local that sa/canon.py considers renamable (bound only by Name stores of its own
 function scope; closures may read it) is renamed consistently to <name>__r.  A rule whose verdict
 depends on how a local is *spelled* changes its verdict on this twin -- unless the normalisation of
-sa/canon.py gives the local its reference spelling back, which is what the twin exercises.
+sa/canon.py gives the local its reference spelling back, which is what the twin exercises.  The
+same twin annotates every plain assignment to a local (`x: object = v`), as adding type hints does;
+sa/canon.py strips the annotations of locals before the rules run.
 """
 from __future__ import annotations
 
@@ -12,7 +14,7 @@ import ast
 from . import canon
 
 
-def rename_locals(src: str, suffix: str = "__r") -> tuple[str, int]:
+def rename_locals(src: str, suffix: str = "__r", annotate: bool = True) -> tuple[str, int]:
     tree = ast.parse(src)
     renamed = 0
     for _q, fn in list(canon.qualnames(tree)):
@@ -23,4 +25,19 @@ def rename_locals(src: str, suffix: str = "__r") -> tuple[str, int]:
                 continue
             canon.rename(own, x, x + suffix)
             renamed += 1
+    if annotate:
+        # ... and every plain assignment to a single local name gets an annotation (never evaluated
+        # for a local): what a maintainer adding type hints does
+        for _q, fn in list(canon.qualnames(tree)):
+            own = canon.own_nodes(fn)
+            if any(isinstance(n, (ast.Global, ast.Nonlocal)) for n in own):
+                continue
+            for parent in [fn] + [n for n in own if not isinstance(n, canon._SCOPES)]:
+                for field in ("body", "orelse", "finalbody"):
+                    blk = getattr(parent, field, None)
+                    if not isinstance(blk, list):
+                        continue
+                    for i, st in enumerate(blk):
+                        if isinstance(st, ast.Assign) and len(st.targets) == 1 and isinstance(st.targets[0], ast.Name):
+                            blk[i] = ast.copy_location(ast.AnnAssign(target=st.targets[0], annotation=ast.Name(id="object", ctx=ast.Load()), value=st.value, simple=1), st)
     return ast.unparse(tree) + "\n", renamed
